@@ -293,6 +293,10 @@ def _f11(arm_name, desc, v):
   """Detection miss (never a wrong key) in the stated-but-not-asserted region."""
   if arm_name != 'bias' or v.clause != 'bias:missed':
     return False
+  if isinstance(desc, dict) and desc.get('sentinel'):
+    # replays/C08/sentinel-*: cases of the stated-only region that ARE detected on the pinned tree; a miss
+    # there is a regression, not the recorded finding
+    return False
   d = v.detail
   return stated(d['kind'], d['bits'], d['t'], d['m']) and not asserted(d['kind'], d['bits'], d['t'], d['m'])
 
